@@ -325,6 +325,13 @@ impl Ctx {
                 samples.push(json!({"class": l, "case": v}));
             }
         }
+        // a run that stopped at its first violation may have completed no
+        // other case: the violating cases are then the samples
+        if samples.is_empty() {
+            for v in viols.iter() {
+                samples.push(json!({"class": format!("violation {}", v.sig), "case": v.case}));
+            }
+        }
         let evaluations = self.evals.load(Ordering::Relaxed);
         let distinct = self.distinct.lock().unwrap().len();
         let mut coverage = Map::new();
